@@ -111,20 +111,34 @@ class Stats:
                 self.notes.append(n)
 
 
-def solve(assertions, stats=None, label=None, timeout_ms=QUERY_TIMEOUT_MS, want_model=True):
+VIOLATION_SEEN = None      # multiprocessing.Event shared by the workers of one check (set by common.run_check)
+
+
+KNOWN_KEYS = set()         # keys of committed known findings: these never trigger the early exit
+
+
+def mark_violation(key=None):
+    if key is not None and key in KNOWN_KEYS:
+        return
+    if VIOLATION_SEEN is not None:
+        VIOLATION_SEEN.set()
+
+
+def solve(assertions, stats=None, label=None, timeout_ms=QUERY_TIMEOUT_MS, want_model=True, soft=False):
     """Decide the conjunction with a FRESH QF_BV solver. Returns ('unsat', None) or ('sat', model)."""
     goal = z3.And(*assertions) if len(assertions) != 1 else assertions[0]
-    simp = z3.simplify(goal)
+    simp = goal        # NOT z3.simplify(goal): the rewriter can blow up on deep reset-rooted unrollings
     s = z3.SolverFor("QF_BV")
     s.set("timeout", timeout_ms)
     s.add(simp)
     t0 = time.time()
+    # (a hard wall-clock limit per configuration is enforced by the parent process in common.py)
     r = str(s.check())
     dt = time.time() - t0
     if stats is not None:
         stats.queries += 1
         stats.solver_s += dt
-        h = hashlib.sha1(goal.sexpr().encode()).hexdigest()[:16]
+        h = f"{goal.hash():08x}"     # structural AST hash (printing a deep DAG is too slow)
         stats.hashes.add(h)
         if not (z3.is_true(goal) or z3.is_false(goal)):
             stats.nontrivial.add(h)
@@ -132,6 +146,8 @@ def solve(assertions, stats=None, label=None, timeout_ms=QUERY_TIMEOUT_MS, want_
             stats.unsat += 1
         elif r == "sat":
             stats.sat += 1
+    if r == "unknown" and soft:
+        return "unknown", None
     if r == "unknown":
         r2 = _cvc5_fallback(s)
         if r2 is None:
@@ -180,7 +196,7 @@ def cvc5_check(smt2_text, timeout_ms=60_000):
 
 def cross_check_cvc5(assertions, expected, stats=None):
     s = z3.SolverFor("QF_BV")
-    s.add(z3.simplify(z3.And(*assertions)))
+    s.add(z3.And(*assertions))
     r = cvc5_check(s.to_smt2())
     if r is not None and r != expected:
         raise Inconclusive(f"z3 says {expected}, cvc5 says {r}")
@@ -330,14 +346,22 @@ def decide(make, h, name, k, build, stats, init="free", max_prefix=6, twin=None,
     if r == "unsat":
         return None
     # candidate counterexample
+    if init != "reset" and VIOLATION_SEEN is not None and VIOLATION_SEEN.is_set():
+        stats.notes.append("a violation of this property was already confirmed on the simulator for another "
+                           "configuration; further free-state counterexamples were not rooted (time bound)")
+        return None
     prefixes = [0] if init == "reset" else range(0, max_prefix + 1)
+    undecided = 0
     for p in prefixes:
         if init == "reset":
             rframes, rcons, rmodel = frames, cons, model
         else:
             rframes, rcons = unroll(ts, p + k, init="reset", tag="r")
             ra, rbad = build(h, rframes[p:])
-            rr, rmodel = solve(rcons + list(ra) + [rbad], stats, f"{name}/root{p}")
+            rr, rmodel = solve(rcons + list(ra) + [rbad], stats, f"{name}/root{p}", timeout_ms=45_000, soft=True)
+            if rr == "unknown":
+                undecided += 1
+                continue
             if rr != "sat":
                 continue
         stim = model_stimulus(ts, rframes, rmodel)
@@ -346,6 +370,8 @@ def decide(make, h, name, k, build, stats, init="free", max_prefix=6, twin=None,
         if not ok:
             raise Inconclusive(f"counterexample of {name} does not reproduce on the simulator: {detail}")
         return Violation(name, stim, p, k, detail)
+    if undecided:
+        raise Inconclusive(f"{name}: free-state counterexample exists but {undecided} rooting queries timed out")
     stats.unrooted += 1
     stats.notes.append(f"{name}: free-state counterexample not reachable from reset within "
                        f"{max_prefix} cycles; reset-rooted bounded verdict holds (all-state strengthening failed)")
